@@ -210,6 +210,32 @@ func clientScenario(rng *rand.Rand) scenario {
 		peerDone <- evs
 	}()
 
+	// a controller holds one connection per replica: sometimes ANOTHER connection of this process has a
+	// request that exceeded its deadline shortly before (its peer never answers).  What happens there
+	// must not show on this connection — neither while that connection is still being torn down (its
+	// pending requests are failed about two seconds after the deadline) nor afterwards.
+	if rng.Intn(3) == 0 {
+		if lnA, err := net.Listen("tcp", "127.0.0.1:0"); err == nil {
+			defer lnA.Close()
+			go func() {
+				if ca, err := lnA.Accept(); err == nil {
+					time.Sleep(12 * time.Second) // reads nothing, answers nothing
+					ca.Close()
+				}
+			}()
+			if connA, err := net.Dial("tcp", lnA.Addr().String()); err == nil {
+				cA := rpc.NewClient(connA, make(chan struct{}, 16))
+				go cA.ReadAt(make([]byte, 512), 0) // the read deadline is the short one (0.7 s here)
+				if rng.Intn(2) == 0 {
+					time.Sleep(900 * time.Millisecond) // the request has timed out, the teardown is pending
+					feat = append(feat, "other-conn-timing-out")
+				} else {
+					time.Sleep(3300 * time.Millisecond) // the other connection has been torn down
+					feat = append(feat, "other-conn-timed-out")
+				}
+			}
+		}
+	}
 	conn, err := net.Dial("tcp", ln.Addr().String())
 	if err != nil {
 		return scenario{line: "cl", impl: "dial-failed"}
